@@ -30,13 +30,16 @@ def codecCmd (cmd : String) (args : List String) : Option String :=
   match cmd, args with
   | "dec", [h] => do
     let bs ← ofHex h
-    pure (resLine (decodeTop true bs) (fun v => valueText (canon v)))
+    pure (resLine (decodeTop .std bs) (fun v => valueText (canon v)))
   | "decu", [h] => do
     let bs ← ofHex h
-    pure (resLine (decodeTop false bs) (fun v => valueText (canon v)))
+    pure (resLine (decodeTop .lax bs) (fun v => valueText (canon v)))
+  | "decl", [h] => do   -- a decoder that predates protocol 1.20
+    let bs ← ofHex h
+    pure (resLine (decodeTop .legacy bs) (fun v => valueText (canon v)))
   | "decp", [h] => do   -- prefix decode: value and number of bytes consumed
     let bs ← ofHex h
-    pure (resLine (dec true (fuelFor bs) bs 0)
+    pure (resLine (dec .std (fuelFor bs) bs 0)
       (fun (v, r) => toString (bs.length - r.length) ++ " " ++ valueText (canon v)))
   | "skip", [h] => do
     let bs ← ofHex h
@@ -55,7 +58,7 @@ def codecCmd (cmd : String) (args : List String) : Option String :=
     pure (serLen (encodeTop .v1 v) ++ " " ++ serLen (encodeTop .v2 v))
   | "rt", [h] => do
     let bs ← ofHex h
-    pure (resLine (decodeTop true bs)
+    pure (resLine (decodeTop .std bs)
       (fun v => serRes (encodeTop .v1 v) ++ " " ++ serRes (encodeTop .v2 v) ++ " " ++ valueText (canon v)))
   | "utf8", [h] => do
     let bs ← ofHex h
